@@ -33,7 +33,7 @@ each error.
 from __future__ import annotations
 __docformat__ = 'epytext en'
 
-from typing import Callable, ContextManager, List, Optional, Sequence, Iterator, TYPE_CHECKING
+from typing import Callable, ContextManager, Dict, List, Optional, Sequence, Iterator, TYPE_CHECKING
 import abc
 import sys
 import re
@@ -149,6 +149,7 @@ class ParsedDocstring(abc.ABC):
 
         self._stan: Optional[Tag] = None
         self._summary: Optional['ParsedDocstring'] = None
+        self._toc: Dict[int, Optional['ParsedDocstring']] = {}
 
     @abc.abstractproperty
     def has_body(self) -> bool:
@@ -162,7 +163,17 @@ class ParsedDocstring(abc.ABC):
     def get_toc(self, depth: int) -> Optional['ParsedDocstring']:
         """
         The table of contents of the docstring if titles are defined or C{None}.
+
+        @note: The table of contents is cached: building it gives identifiers to its entries 
+            and makes the titles of the document refer to them, the entries shown on the page 
+            must be the ones the titles refer to.
         """
+        if depth in self._toc:
+            return self._toc[depth]
+        toc = self._toc[depth] = self._get_toc(depth)
+        return toc
+
+    def _get_toc(self, depth: int) -> Optional['ParsedDocstring']:
         try:
             document = self.to_node()
         except Exception:
